@@ -82,8 +82,8 @@ Section Thread.
     - exists 1. reflexivity.
     - exists 1. reflexivity.
     - cbn [exec]. destruct (bev E lo li st c =? 0)%Z eqn:Hc.
-      + destruct (IHs2 st k) as [m H]. exists (1 + m). rewrite titer_app, step_if, Hc. exact H.
-      + destruct (IHs1 st k) as [m H]. exists (1 + m). rewrite titer_app, step_if, Hc. exact H.
+      + destruct (IHs2 (chk st (binb E lo li st c)) k) as [m H]. exists (1 + m). rewrite titer_app, step_if, Hc. exact H.
+      + destruct (IHs1 (chk st (binb E lo li st c)) k) as [m H]. exists (1 + m). rewrite titer_app, step_if, Hc. exact H.
     - cbn [exec]. destruct (Nat.eqb li 0) eqn:Hl.
       + destruct (IHs st k) as [m H]. exists (1 + m). rewrite titer_app, step_first, Hl. exact H.
       + exists 1. rewrite step_first, Hl. reflexivity.
